@@ -48,7 +48,9 @@ def draw_cfg(st):
     if mode == "fork":
         return {"mode": "fork", "world": "seq", "how": ["preserve", "task_id", "task_id_text"][st.choose(3, "how")],
                 "before": st.choose(3, "before"), "inside": 1 + st.choose(3, "inside"), "after": st.choose(3, "after"),
-                "child_raises": st.choose(4, "child_raises") == 3, "merge": st.choose(3, "merge")}
+                "child_raises": st.choose(4, "child_raises") == 3, "merge": st.choose(3, "merge"),
+                # both processes also begin new tasks of their own after the fork
+                "own_tasks": st.choose(3, "own_tasks")}
     if mode == "race":
         return {"mode": "race", "world": "threads", "n_racers": 2 + st.choose(3, "racers"),
                 "p_switch": [0.2, 0.05, 0.5][st.choose(3, "p_switch")],
@@ -132,12 +134,17 @@ def oracle_nodes(rc):
         u, lv = tid.decode("ascii").split("@")
         level = [int(x) for x in lv.split("/") if x]
         if parent.nid is not None and parent.nid in start_of:
+            # a position IN the originating action (its uuid, its level + one more component), used by nothing
+            # but the continued task -- which number it is depends on what else the origin has logged
             pm = start_of[parent.nid]
-            want = pm["task_level"][:-1] + [parent.children.index(rnode) + 2]
-            if u != pm["task_uuid"] or level != want:
+            if u != pm["task_uuid"] or level[:-1] != pm["task_level"][:-1] or len(level) != len(pm["task_level"]):
                 raise Violation("task_id_position", "serialize_task_id gave %s@%s; the originating action is %s at "
-                                "%s and its next free position was %s" % (u, level, pm["task_uuid"],
-                                                                         pm["task_level"][:-1], want))
+                                "%s" % (u, level, pm["task_uuid"], pm["task_level"][:-1]))
+            clash = [r.msg for r in rc.tap.records
+                     if r.msg.get("task_uuid") == u and r.msg.get("task_level") == level]
+            if clash:
+                raise Violation("task_id_position", "serialize_task_id gave %s@%s, a position at which a message was "
+                                "logged: %r" % (u, level, clash[0]))
         # (b) the remote side logged under exactly that position, with that uuid
         if rnode.started and rnode.nid in start_of:
             sm = start_of[rnode.nid]
@@ -167,8 +174,8 @@ def oracle_nodes(rc):
     if len(lines) != len(rc.tap.records):
         raise Violation("lost" if len(lines) < len(rc.tap.records) else "duplicated",
                         "%d lines in the node files, %d messages emitted" % (len(lines), len(rc.tap.records)))
-    O.account(lines, rc.model)
-    O.check_forest(lines, rc.model, order_free=False)
+    O.account(lines, rc.model, lenient=True)
+    O.check_forest(lines, rc.model, order_free=False, lenient=True, fields=False)
     return (tuple(order), rc.cfg["shuffle"])
 
 
@@ -323,6 +330,7 @@ def run_fork(seed, dec, cfg):
     callable / continue_task), the parent never does, drops the callable and carries on.  The two
     processes' logs are merged in a drawn order and must parse as one complete task with the child's
     sub-tree at the reserved position."""
+    import contextvars
     import gc
     import json
     import os
@@ -364,6 +372,10 @@ def run_fork(seed, dec, cfg):
                 status = 3
                 try:
                     os.close(r)
+                    seams.reseed_after_fork()
+                    for i in range(cfg.get("own_tasks", 0)):
+                        # (from a context of its own: a new top-level task, not a child of the inherited action)
+                        contextvars.Context().run(e.log_message, message_type="own-task", who="child", i=i)
                     try:
                         if "h" in holder:
                             holder["h"](7)
@@ -397,6 +409,8 @@ def run_fork(seed, dec, cfg):
             # the parent never calls its copy; it lets go of it and carries on
             holder.clear()
             gc.collect()
+            for i in range(cfg.get("own_tasks", 0)):
+                contextvars.Context().run(e.log_message, message_type="own-task", who="parent", i=i)
             for i in range(cfg["after"]):
                 e.log_message(message_type="after", i=i)
         gc.collect()
@@ -429,11 +443,25 @@ def run_fork(seed, dec, cfg):
         except Exception as ex:  # noqa
             raise Violation(("parse", {"exc": type(ex).__name__}),
                             "merged logs of parent and child do not parse: %s: %s" % (type(ex).__name__, ex))
+        n_own = 2 * cfg.get("own_tasks", 0)
+        own_tasks = [t for t in tasks if not isinstance(t.root(), WrittenAction)
+                     and t.root().contents.get("message_type") == "own-task"]
+        own_ids = set(id(t) for t in own_tasks)
+        tasks = [t for t in tasks if id(t) not in own_ids]
+        if len(own_tasks) != n_own or len(set(t.root().task_uuid for t in own_tasks)) != n_own:
+            raise Violation(("parse", {"what": "own_tasks"}),
+                            "the two processes began %d tasks of their own after the fork; the merged logs hold %d "
+                            "one-message tasks with %d distinct task uuids" % (
+                                n_own, len(own_tasks), len(set(t.root().task_uuid for t in own_tasks))))
         if len(tasks) != 1 or not tasks[0].is_complete():
             raise Violation("parse", "merged logs of parent and child: %d task(s), complete=%s" % (
                 len(tasks), [t.is_complete() for t in tasks]))
         root = tasks[0].root()
-        kids = list(root.children)
+        # (messages eliot may log on its own account -- message_type "eliot:..." -- are not the program's)
+        def own(k):
+            mt = getattr(k, "contents", {}).get("message_type") if not isinstance(k, WrittenAction) else None
+            return isinstance(mt, str) and mt.startswith("eliot:")
+        kids = [k for k in root.children if not own(k)]
         want = ["before"] * cfg["before"] + ["<remote>"] + ["after"] * cfg["after"]
         got = [("<remote>" if isinstance(k, WrittenAction) else k.contents.get("message_type")) for k in kids]
         if got != want:
@@ -441,12 +469,13 @@ def run_fork(seed, dec, cfg):
         remote = kids[cfg["before"]]
         rtype = remote.start_message.contents.get("action_type") if remote.start_message is not None else None
         rstatus = remote.end_message.contents.get("action_status") if remote.end_message is not None else None
-        inner = [getattr(c, "contents", {}).get("message_type") for c in remote.children]
+        inner = [getattr(c, "contents", {}).get("message_type") for c in remote.children if not own(c)]
         if rtype != "eliot:remote_task" or inner != ["in-child"] * cfg["inside"] or \
                 rstatus != ("failed" if cfg["child_raises"] else "succeeded"):
             raise Violation("remote_content", "the child's sub-tree is %r %r with children %r" % (rtype, rstatus, inner))
+        mine = [m for m in merged if "action_status" in m or not str(m.get("message_type", "")).startswith("eliot:")]
         if len(merged) != len(parent_msgs) + len(child_msgs) or \
-                len(merged) != 2 + cfg["before"] + cfg["after"] + 2 + cfg["inside"]:
+                len(mine) != 2 + cfg["before"] + cfg["after"] + 2 + cfg["inside"] + n_own:
             raise Violation(("message_count", {"dir": "more"}),
                             "%d messages in the two logs, the two processes logged %d" % (
                                 len(merged), 4 + cfg["before"] + cfg["after"] + cfg["inside"]))
